@@ -10,7 +10,7 @@ import nodes as N
 
 WORDS = ['alpha', 'beta', 'gamma', 'delta', 'x', 'y', 'item1', 'item2', 'a b', 'hello']
 ATTRS = ['name', 'count', 'size', 'flag', 'ratio', 'items', 'opts', 'child', 'kind', 'when', 'where',
-         'note', 'first_name', 'max_size', 'a', 'b', 'c']
+         'note', 'first_name', 'max_size', 'a', 'b', 'c', '_count', '_values']
 SCALARS = [('str',), ('int',), ('float',), ('bool',)]
 
 
@@ -147,7 +147,7 @@ def gen_model(rng, features=None):
                 spec.append(mix)
                 by_name[mix['name']] = mix
                 bases = rng.choice([[base, mix['name']], [mix['name'], base]])
-            c = new_plain(name, bases)
+            c = new_plain(name, bases, abstract=('abc' if rng.random() < 0.15 else None))
             if by_name[base].get('abstract') == 'method':
                 c['concretise'] = True
             for b in bases:
@@ -170,6 +170,13 @@ def gen_model(rng, features=None):
         t = gen_type(rng, avail, 2)
         if t != ('null',):
             cands.append(t)
+    for n in avail:
+        if by_name[n]['kind'] != 'plain':
+            base = rng.choice([('str',), ('bool',), ('path',), ('str',)])
+            ms = [base, ('cls', n)]
+            rng.shuffle(ms)
+            cands.append(('union', ms))
+            cands.append(('seq', 'list', ('union', ms)))
     for c in spec:
         c.pop('all_params_tmp', None)
     return spec, cands
@@ -310,6 +317,12 @@ def gen_doc(rng, spec, t, depth=3):
                 pairs.append((S(key), gen_doc(rng, spec, ty, depth - 1)))
         if c.get('extra') and rng.random() < 0.6:
             pairs.append((S('extra1'), gen_any(rng, 1)))
+            if rng.random() < 0.3:
+                pairs.append((S('extra2'), gen_any(rng, 1)))
+        if c.get('extra') and rng.random() < 0.12:
+            # a key spelt like the catch-all parameter itself
+            inner = ('m', [(S('x'), S('2'))], '!' + rng.choice([x['name'] for x in spec]))
+            pairs.append((S('_yatiml_extra'), rng.choice([S('null'), inner, ('m', [(S('deep'), inner)], None)])))
         if rng.random() < 0.3:
             rng.shuffle(pairs)
         tag = None
@@ -333,7 +346,7 @@ def gen_any(rng, depth=2):
 TAGS = ['!Alpha', '!Beta', '!Gamma', '!Unknown', '!!python/object:os.system',
         '!!python/object/apply:os.system', '!!python/name:os.system', '!!str', '!!int', '!!float',
         '!!bool', '!!null', '!!seq', '!!map', '!!binary', '!!set', '!!omap', '!!timestamp', '!!merge',
-        '!!value', '!Path', '!!pairs']
+        '!!value', '!Path', '!!pairs', '!Unrelated', '!Celsius']
 
 
 def paths(doc, prefix=()):
@@ -359,6 +372,8 @@ def get_at(doc, path):
 def replace_at(doc, path, fn):
     if not path:
         return fn(doc)
+    if doc[0] == '&':
+        return ('&', doc[1], replace_at(doc[2], path, fn))
     if doc[0] == 'q':
         items = list(doc[1])
         items[path[0]] = replace_at(items[path[0]], path[1:], fn)
@@ -380,6 +395,8 @@ def all_paths(doc):
 
     def rec(d, p):
         out.append(p)
+        if d[0] == '&':
+            d = d[2]
         if d[0] == 'q':
             for i, x in enumerate(d[1]):
                 rec(x, p + (i,))
@@ -397,14 +414,19 @@ def with_tag(d, tag):
     return (d[0], d[1], tag)
 
 
-def mutate(rng, doc):
+def mutate(rng, doc, spec=None):
     """one single-point mutation; returns (doc, description)"""
     ps = all_paths(doc)
     r = rng.random()
     p = rng.choice(ps)
     target = get_at_path(doc, p)
     if r < 0.3:
-        tag = rng.choice(TAGS)
+        own = ['!' + c['name'] for c in (spec or [])]
+        tag = rng.choice(own) if (own and rng.random() < 0.5) else rng.choice(TAGS)
+        if own and target[0] != 'm' and rng.random() < 0.5:
+            maps = [q for q in ps if get_at_path(doc, q)[0] == 'm']
+            if maps:
+                p = rng.choice(maps)
         return replace_at(doc, p, lambda d: with_tag(d, tag)), ('tag', p, tag)
     if r < 0.5:
         # wrong scalar
@@ -424,7 +446,11 @@ def mutate(rng, doc):
         del pairs[i]
         desc = ('dropkey', q)
     elif r < 0.8:
-        pairs.insert(rng.randint(0, len(pairs)), (S(rng.choice(['bogus', 'nmae', 'extra9'])), S('1')))
+        own = ['!' + c['name'] for c in (spec or [])] + ['!Unrelated']
+        val = rng.choice([S('1'), S('1'), ('q', [('m', [(S('x'), S('2'))], rng.choice(own))], None),
+                          ('m', [(S('x'), S('2'))], rng.choice(own)), ('s', 'red', False, rng.choice(own))])
+        pairs.insert(rng.randint(0, len(pairs)),
+                     (S(rng.choice(['bogus', 'nmae', 'extra9', '_yatiml_extra', 'self', 'extra1'])), val))
         desc = ('addkey', q)
     elif r < 0.87 and pairs:
         i = rng.randrange(len(pairs))
@@ -449,6 +475,8 @@ def mutate(rng, doc):
 def get_at_path(doc, path):
     i = 0
     while i < len(path):
+        if doc[0] == '&':
+            doc = doc[2]
         if doc[0] == 'q':
             doc = doc[1][path[i]]
             i += 1
@@ -465,6 +493,10 @@ PLAIN_SAFE = re.compile(r'^[A-Za-z0-9_./+-][A-Za-z0-9_./+:-]*( [A-Za-z0-9_./+-]+
 def render(doc, style='flow'):
     """YAML text (flow style) of a document tree"""
     k = doc[0]
+    if k == '&':
+        return '&{} {}'.format(doc[1], render(doc[2]))
+    if k == '*':
+        return '*{}'.format(doc[1])
     tag = doc[3] if k == 's' else doc[2]
     pre = (tag + ' ') if tag else ''
     if k == 's':
@@ -479,6 +511,9 @@ def render(doc, style='flow'):
     parts = []
     for kk, v in doc[1]:
         ks = render(kk)
+        if kk[0] == '*':
+            parts.append(ks + ' : ' + render(v))
+            continue
         if kk[0] != 's' or len(ks) > 100:
             ks = '? ' + ks
             parts.append(ks + ' : ' + render(v))
